@@ -16,7 +16,8 @@ META = {
              "ST4 input with WAM tail stress; ST4 / ST6 / Romero (strictly positive spectra) dissipation; non-default "
              "parameter sets (+-50 %). Non-trivial = bulk dissipation < 0 and bulk input > 0 for some point; "
              "distinct = sha1 of the case."
-             " Wind directions are also written in (-180,180] or one turn further on; a fifth of the cases are square (nf == nd); batch independence is asserted with explicit and with implicit roughness."),
+             " Wind directions are also written in (-180,180] or one turn further on; a fifth of the cases are square (nf == nd); batch independence is asserted with explicit and with implicit roughness."
+             " One case in six holds pond-scale seas (centimetres high, peaked near 1 Hz, grid to 3-4 Hz)."),
     "assumptions": [
         "exact clauses use an explicit roughness length exp(-12..-3) m; the implicit-roughness path is exercised for the imbalance clauses and points whose roughness is NaN are counted as undefined_roughness (C10 allows NaN)",
         "'no downwind component' is asserted where cos(theta-theta_w) <= -1e-9 (the bins within rounding of exactly 90 degrees may go either way)",
